@@ -37,13 +37,15 @@ Record deviations := {
   d16_notify_del_return : bool;   (* D16 State.notify_del: `return` instead of `continue` when the entity/queue is already gone *)
   d90_dropped_dm_started : bool;  (* D90 new subsystem: a function dropped while its manager is not started yet is started anyway *)
   d91_pending_subscribes : bool;  (* D91 legacy: a trigger stopped before its task ran still runs its prologue, then is cancelled without unsubscribing *)
-  d21_handler_stays : bool        (* D21 a service shared by several live functions keeps the handler registered last, even when that function is removed *)
+  d21_handler_stays : bool;       (* D21 a service shared by several live functions keeps the handler registered last, even when that function is removed *)
+  d92_cell_import_not_started : bool  (* D92 a module imported inside a Jupyter cell is loaded with auto_start off and never started *)
 }.
 Definition cfg_off : deviations :=
-  {| d16_notify_del_return := false; d90_dropped_dm_started := false; d91_pending_subscribes := false; d21_handler_stays := false |}.
+  {| d16_notify_del_return := false; d90_dropped_dm_started := false; d91_pending_subscribes := false; d21_handler_stays := false;
+     d92_cell_import_not_started := false |}.
 Definition all_off (c : deviations) : Prop :=
   d16_notify_del_return c = false /\ d90_dropped_dm_started c = false /\ d91_pending_subscribes c = false /\
-  d21_handler_stays c = false.
+  d21_handler_stays c = false /\ d92_cell_import_not_started c = false.
 
 (* ---------------------------------------------------------------------------------------------- *)
 (* small list helpers                                                                              *)
@@ -127,7 +129,9 @@ Record unit_ := {
   u_state : option (list ident);   (* @state_trigger: watched names in iteration order *)
   u_event : option N;              (* @event_trigger: event type *)
   u_periodic : bool;               (* @time_trigger with a recurring time spec *)
-  u_startup : bool; u_shutdown : bool
+  u_startup : bool; u_shutdown : bool;
+  u_crash : bool                   (* fault: every dispatch of this function raises (e.g. @time_active with an impossible date):
+                                      the watcher that dispatches dies / the legacy trigger task unsubscribes and ends *)
 }.
 Definition u_persistent (u : unit_) : bool := is_some (u_state u) || is_some (u_event u) || u_periodic u.
 
@@ -136,6 +140,9 @@ Definition rkind_code (k : rkind) : N :=
   match k with RState => 0 | REvent => 1 | RTime => 2 | RStartup => 3 | RShutdown => 4 | RService => 5 end.
 Record run := { r_gen : N; r_kind : rkind; r_unit : N }.
 
+(* the startup run is dispatched like every other occurrence: a crashing function never runs *)
+Definition startup_run (u : unit_) : list run :=
+  if u_startup u && negb (u_crash u) then [{| r_gen := u_gen u; r_kind := RStartup; r_unit := u_id u |}] else [].
 (* legacy: TrigInfo.start = create the trigger_watch task (nothing subscribed yet) *)
 Definition leg_start (u : unit_) (L : ledger) : ledger := set_tasks L (addn (u_id u) (l_tasks L)).
 (* legacy: the prologue of trigger_watch up to its first wait (runs atomically when the task first runs) *)
@@ -143,7 +150,7 @@ Definition leg_prologue (u : unit_) (L : ledger) : ledger * list run :=
   let L1 := match u_state u with Some ids => set_state L (notify_add ids (u_id u) (l_state L)) | None => L end in
   let L2 := match u_event u with Some ev => ev_add ev (u_id u) L1 | None => L1 end in
   let L3 := if u_persistent u then L2 else set_tasks L2 (deln (u_id u) (l_tasks L2)) in   (* "trigger finished" *)
-  (L3, if u_startup u then [{| r_gen := u_gen u; r_kind := RStartup; r_unit := u_id u |}] else []).
+  (L3, startup_run u).
 Definition shutdown_run (u : unit_) : list run :=
   if u_shutdown u then [{| r_gen := u_gen u; r_kind := RShutdown; r_unit := u_id u |}] else [].
 (* legacy: TrigInfo.stop of a trigger whose task has run its prologue *)
@@ -157,6 +164,13 @@ Definition leg_stop_running (cfg : deviations) (u : unit_) (L : ledger) : ledger
 Definition leg_stop_pending (u : unit_) (L : ledger) : ledger * list run :=
   let L2 := match u_event u with Some ev => ev_del ev (u_id u) L | None => L end in
   (set_reap L2 (addn (u_id u) (l_reap L2)), shutdown_run u).
+(* legacy: an exception inside trigger_watch: `except Exception:` unsubscribes everything and the task returns *)
+Definition leg_crash (cfg : deviations) (u : unit_) (L : ledger) : ledger :=
+  let L1 := match u_state u with
+            | Some ids => set_state L (notify_del (d16_notify_del_return cfg) ids (u_id u) (l_state L))
+            | None => L end in
+  let L2 := match u_event u with Some ev => ev_del ev (u_id u) L1 | None => L1 end in
+  set_tasks L2 (deln (u_id u) (l_tasks L2)).
 (* the reaper cancels everything queued *)
 Definition reap (L : ledger) : ledger :=
   set_reap (set_tasks L (filter (fun t => negb (memn t (l_reap L))) (l_tasks L))) [].
@@ -169,14 +183,15 @@ Definition dec_start (u : unit_) (L : ledger) : ledger * list run :=
             | None => L end in
   let L2 := match u_event u with Some ev => set_evbus L1 (l_event L1) (addp (ev, u_id u) (l_bus L1)) | None => L1 end in
   let L3 := if u_periodic u then set_tasks L2 (addn (u_id u) (l_tasks L2)) else L2 in
-  (L3, if u_startup u then [{| r_gen := u_gen u; r_kind := RStartup; r_unit := u_id u |}] else []).
+  (L3, startup_run u).
 Definition dec_stop (cfg : deviations) (u : unit_) (L : ledger) : ledger * list run :=
   let L0 := set_tasks L (deln (u_id u) (l_tasks L)) in                      (* cycle_task.cancel() *)
   let L1 := match u_state u with
             | Some ids => set_state L0 (notify_del (d16_notify_del_return cfg) ids (u_id u) (l_state L0))
             | None => L0 end in
   let L2 := match u_event u with Some ev => set_evbus L1 (l_event L1) (delp (ev, u_id u) (l_bus L1)) | None => L1 end in
-  (L2, shutdown_run u).
+  (* TimeTriggerDecorator.stop dispatches the shutdown run through the guards; TrigInfo.stop calls the action directly *)
+  (L2, if u_crash u then [] else shutdown_run u).
 
 (* ---------------------------------------------------------------------------------------------- *)
 (* functions and the world                                                                         *)
@@ -355,19 +370,20 @@ Record fspec := {
   s_events : list N;              (* one event type per @event_trigger *)
   s_times : list tspec;           (* one per @time_trigger *)
   s_svc : option N;               (* @service name *)
-  s_pos : nat                     (* position of @service among the trigger decorators (new subsystem start order) *)
+  s_pos : nat;                    (* position of @service among the trigger decorators (new subsystem start order) *)
+  s_crash : bool                  (* the function carries a guard that raises at every dispatch *)
 }.
-Definition mk_unit (id gen : N) (st : option (list ident)) (ev : option N) (tm : option tspec) : unit_ :=
+Definition mk_unit (crash : bool) (id gen : N) (st : option (list ident)) (ev : option N) (tm : option tspec) : unit_ :=
   {| u_id := id; u_gen := gen; u_state := st; u_event := ev;
      u_periodic := match tm with Some t => ts_periodic t | None => false end;
      u_startup := match tm with Some t => ts_startup t | None => false end;
-     u_shutdown := match tm with Some t => ts_shutdown t | None => false end |}.
+     u_shutdown := match tm with Some t => ts_shutdown t | None => false end; u_crash := crash |}.
 (* what one unit consists of, before it gets its id *)
 Definition proto : Type := (option (list ident) * option N * option tspec)%type.
-Fixpoint number_units (gen id : N) (ps : list proto) : list unit_ :=
+Fixpoint number_units (crash : bool) (gen id : N) (ps : list proto) : list unit_ :=
   match ps with
   | [] => []
-  | (st, ev, tm) :: r => mk_unit id gen st ev tm :: number_units gen (id + 1) r
+  | (st, ev, tm) :: r => mk_unit crash id gen st ev tm :: number_units crash gen (id + 1) r
   end.
 (* legacy trigger_init: TrigInfo number k takes the k-th decorator of each kind *)
 Definition legacy_protos (s : fspec) : list proto :=
@@ -380,7 +396,7 @@ Definition new_protos (s : fspec) : list proto :=
 
 Definition define (cfg : deviations) (c : N) (newsys : bool) (s : fspec) (W : world) : world :=
   let gen := w_next W in
-  let units := number_units gen (gen + 1) (if newsys then new_protos s else legacy_protos s) in
+  let units := number_units (s_crash s) gen (gen + 1) (if newsys then new_protos s else legacy_protos s) in
   let f := {| f_gen := gen; f_ctx := c; f_new := newsys; f_units := units; f_svc := s_svc s; f_pos := s_pos s |} in
   let nxt := gen + 1 + N.of_nat (length units) in
   (* the function object exists in any case *)
@@ -428,22 +444,47 @@ Definition settle (W : world) : world :=
 
 (* -- occurrences -------------------------------------------------------------------------------- *)
 Definition gen_of (W : world) (id : N) : N := match find_unit W id with Some u => u_gen u | None => 0 end.
+Definition crash_of (W : world) (id : N) : bool := match find_unit W id with Some u => u_crash u | None => false end.
 Definition occ_state (e : N) (W : world) : list run :=
   map (fun p => {| r_gen := gen_of W (snd p); r_kind := RState; r_unit := snd p |})
-      (filter (fun p => N.eqb (fst p) e && memn (snd p) (l_tasks (w_led W))) (l_state (w_led W))).
+      (filter (fun p => N.eqb (fst p) e && memn (snd p) (l_tasks (w_led W)) && negb (crash_of W (snd p))) (l_state (w_led W))).
 Definition occ_event (ev : N) (W : world) : list run :=
   let L := w_led W in
   (if memp (ev, 0) (l_bus L) then
      map (fun p => {| r_gen := gen_of W (snd p); r_kind := REvent; r_unit := snd p |})
-         (filter (fun p => N.eqb (fst p) ev && memn (snd p) (l_tasks L)) (l_event L))
+         (filter (fun p => N.eqb (fst p) ev && memn (snd p) (l_tasks L) && negb (crash_of W (snd p))) (l_event L))
    else []) ++
   map (fun p => {| r_gen := gen_of W (snd p); r_kind := REvent; r_unit := snd p |})
-      (filter (fun p => N.eqb (fst p) ev && negb (N.eqb (snd p) 0)) (l_bus L)).
+      (filter (fun p => N.eqb (fst p) ev && negb (N.eqb (snd p) 0) && negb (crash_of W (snd p))) (l_bus L)).
 Definition occ_tick (W : world) : list run :=
   flat_map (fun t => match find_unit W t with
-                     | Some u => if u_periodic u && negb (memn t (w_pending W)) && negb (memn t (w_zombie W))
+                     | Some u => if u_periodic u && negb (memn t (w_pending W)) && negb (memn t (w_zombie W)) && negb (u_crash u)
                                  then [{| r_gen := u_gen u; r_kind := RTime; r_unit := t |}] else []
                      | None => [] end) (l_tasks (w_led W)).
+(* the watchers that die at an occurrence because dispatching raises *)
+Definition unit_new (W : world) (u : unit_) : bool := match find_func W (u_gen u) with Some f => f_new f | None => false end.
+Definition crash_unit (cfg : deviations) (W : world) (id : N) : world :=
+  match find_unit W id with
+  | None => W
+  | Some u =>
+      if unit_new W u then set_led W (set_tasks (w_led W) (deln id (l_tasks (w_led W))))   (* the _cycle task ends; nothing else changes *)
+      else set_led W (leg_crash cfg u (w_led W))
+  end.
+Definition crashers_state (e : N) (W : world) : list N :=
+  map snd (filter (fun p => N.eqb (fst p) e && memn (snd p) (l_tasks (w_led W)) && crash_of W (snd p)) (l_state (w_led W))).
+Definition crashers_event (ev : N) (W : world) : list N :=
+  if memp (ev, 0) (l_bus (w_led W)) then
+    map snd (filter (fun p => N.eqb (fst p) ev && memn (snd p) (l_tasks (w_led W)) && crash_of W (snd p)) (l_event (w_led W)))
+  else [].
+Definition crashers_tick (W : world) : list N :=
+  filter (fun t => match find_unit W t with
+                   | Some u => u_periodic u && negb (memn t (w_pending W)) && negb (memn t (w_zombie W)) && u_crash u
+                   | None => false end) (l_tasks (w_led W)).
+(* a started trigger whose first action is the startup run: the crash happens as soon as its task runs *)
+Definition crashers_startup (W : world) : list N :=
+  filter (fun t => match find_unit W t with Some u => u_startup u && u_crash u && memn t (l_tasks (w_led W)) | None => false end)
+         (w_running W).
+Definition crash_all (cfg : deviations) (ids : list N) (W : world) : world := fold_left (crash_unit cfg) ids W.
 Definition occ_call (cfg : deviations) (n : N) (W : world) : list run :=
   match handler cfg W n with Some g => [{| r_gen := g; r_kind := RService; r_unit := g |}] | None => [] end.
 Definition add_log (W : world) (rs : list run) : world := led_log W (w_led W, rs).
@@ -466,6 +507,9 @@ Inductive op :=
   | OResumeAll                                    (* scheduler: every suspended start continues *)
   | OReap                                         (* scheduler: the reaper cancels what is queued *)
   | OSettle                                       (* scheduler: run to quiescence (tasks, reaper) *)
+  | OStartupCrash                                 (* scheduler: started triggers whose startup dispatch raises die *)
+  | OCellImportStart (m : N) (ord : list N)       (* a module context loaded by `import` inside a Jupyter cell: conformant =
+                                                     started when the cell ends; today (D92) nobody starts it *)
   | OState (e : N) | OEvent (ev : N) | OTick | OCall (n : N).   (* occurrences; OCall n = call of service n *)
 
 Definition step (cfg : deviations) (W : world) (o : op) : world :=
@@ -481,9 +525,11 @@ Definition step (cfg : deviations) (W : world) (o : op) : world :=
   | OResumeAll => resume_all W
   | OReap => do_reap W
   | OSettle => settle W
-  | OState e => add_log W (occ_state e W)
-  | OEvent ev => add_log W (occ_event ev W)
-  | OTick => add_log W (occ_tick W)
+  | OStartupCrash => crash_all cfg (crashers_startup W) W
+  | OCellImportStart m ord => if d92_cell_import_not_started cfg then W else ctx_start cfg m ord W
+  | OState e => crash_all cfg (crashers_state e W) (add_log W (occ_state e W))
+  | OEvent ev => crash_all cfg (crashers_event ev W) (add_log W (occ_event ev W))
+  | OTick => crash_all cfg (crashers_tick W) (add_log W (occ_tick W))
   | OCall n => add_log W (occ_call cfg n W)
   end.
 Definition run_ops (cfg : deviations) (ops : list op) (W : world) : world := fold_left (step cfg) ops W.
